@@ -199,6 +199,11 @@ ELEMENTARY = {
     'Inflate': ['(min(func.lo, 0), max(func.hi, 0))', '(min(0, func.lo), max(0, func.hi))'],
     '_LoopIndex': ['(0, max(0, length.hi - 1))'],
     'Sign': ['(int(numpy.sign(func.lo)), int(numpy.sign(func.hi)))'],
+    # index-producing nodes (NumPy semantics): insertion points of searchsorted lie in [0, n]; positions of argsort/nonzero/arange in [0, n-1]
+    'SearchSorted': ['(0, array_shape_0.hi)'],
+    'ArgSort': ['(0, max(0, array_shape_m1.hi - 1))'],
+    'Find': ['(0, max(0, where_shape_0.hi - 1))'],
+    'Range': ['(0, max(0, length.hi - 1))'],
 }
 PASS_THROUGH_OK = {'InsertAxis': 'repeats values', 'Transpose': 'permutes values', 'TakeDiag': 'selects values', 'Take': 'selects values', '_TakeSlice': 'selects values', '_Get': 'selects values',
                    'Unravel': 'reshapes', 'Ravel': 'reshapes', 'LoopConcatenate': 'concatenates values of func over iterations', 'Cast': 'int->int casts only', 'Guard': 'identity', 'Diagonalize': None}
@@ -300,9 +305,13 @@ def run(model, rep, tier):
     rep.rule('R06.2', 'compiled fields are reachable from the announced dependencies')
     rep.rule('R06.3', 'isconstant/arguments overrides are conservative')
     rep.rule('R06.4', 'elementary transfer functions equal interval arithmetic')
+    rep.rule('R06.5', 'function.Array wrappers announce exactly the arguments their lowering depends on (= R13.5)')
     check_consumers(model, rep)
     check_transfer(model, rep)
     check_constancy(model, rep)
+    from rules.c13 import check_announced
+    from rules.c03 import _Rename
+    check_announced(model, _Rename(rep, {'R13.5': 'R06.5'}))   # function.Array metadata: announced argument tables
     check_compiled_subset_dependencies(model, rep, rule='R06.2')
     check_fields_announced(model, rep, rule='R06.2')
     rep.require('R06.1', 14)
